@@ -29,7 +29,9 @@ LEAN = os.path.join(ROOT, "lean")
 HARNESS = os.path.join(ROOT, "harness")
 BUILD = os.path.join(ROOT, "build")
 REPO = os.environ.get("VERIF_REPO", "/repo")
-MODEL_EXE = os.path.join(LEAN, ".lake", "build", "bin", "rsslmodel")
+MODEL_DIR = os.path.join(LEAN, ".lake", "build", "bin")
+# compatibility for property modules with their own run loop: path of the current property's model executable
+MODEL_EXE = None
 HARNESS_EXE = os.path.join(BUILD, "target", "debug", "harness")
 
 
@@ -129,6 +131,11 @@ class Ctx:
         self.known_hit = []
         self.extra = {}
         self.harness_ok = None
+        global MODEL_EXE
+        MODEL_EXE = os.path.join(MODEL_DIR, self.model_target())
+
+    def model_target(self):
+        return "rsslmodel_" + self.id.lower()
 
     def say(self, msg):
         self.log.append(msg)
@@ -154,7 +161,7 @@ class Ctx:
         mods = self.spec.get("lean_modules", [])
         thms = self.spec.get("theorems", [])
         with Lock("lean"):
-            rc, out = sh(["lake", "build"] + mods + ["rsslmodel"], cwd=LEAN, timeout=3000)
+            rc, out = sh(["lake", "build"] + mods + [self.model_target()], cwd=LEAN, timeout=3000)
             self.extra["lake_rc"] = rc
             if rc != 0:
                 self._attribute_errors(out, thms)
@@ -284,7 +291,7 @@ class Ctx:
     def run_model(self, requests):
         if not requests:
             return []
-        rc, out = sh([MODEL_EXE], input_="\n".join(requests) + "\n", timeout=3000)
+        rc, out = sh([os.path.join(MODEL_DIR, self.model_target())], input_="\n".join(requests) + "\n", timeout=3000)
         lines = out.split("\n")
         if lines and lines[-1] == "":
             lines.pop()
